@@ -1,5 +1,6 @@
 import NomtModel.Basic.Bytes
 import NomtModel.Store.BitOps
+import NomtModel.Store.BitOpsBuilder
 /-!
 Driver mode `bitops` (C16 / C01): the mirror of `nomt/src/beatree/ops/bit_ops.rs` (`Store/BitOps.lean`) behind a
 stateless line protocol.  The harness (`vharness bitops`) calls the REAL functions through `nomt::verif_api::bit_ops`
@@ -14,6 +15,10 @@ Lines (numbers decimal, bytes lowercase hex, `-` = empty byte string):
 * `sep <a> <b>` — `separate`: the separator key, or `panic`
 * `rk <prefix bytes|N> <prefix_bit_len> <separator bytes> <separator_bit_start> <separator_bit_len>` — `reconstruct_key`
 * `mc <dst> <dst_bit_start> <src> <src_bit_start> <bit_len>` — `bitwise_memcpy`: the destination afterwards, or `panic`
+* `gk <page> <index>` — `get_key(node, index)` on a 4096-byte branch page: the key, or `panic`
+* `bn <initial page> <n> <prefix_compressed> <prefix_len> <base page|-> <steps>` — `BranchNodeBuilder::new` on a page with the given
+  contents, then the steps `P:<key>:<separator_len>:<pn>` (`push`) / `C:<from>:<to>:<i>=<pn>,…|-` (`push_chunk` from the base page),
+  separated by `;` (`-` = none): the page afterwards, or `panic`
 -/
 namespace Nomt.Driver
 open Nomt Nomt.BitOps
@@ -30,6 +35,33 @@ def hexOfNats (l : List Nat) : String :=
 def hex64 (w : Nat) : String := hexOfNats (toBE w)
 
 def key32 (s : String) : Option (List Nat) := (natsOfHex s).bind fun l => if l.length = 32 then some l else none
+
+inductive BStep where
+  | push (key : List Nat) (sepLen pn : Nat)
+  | chunk (frm to : Nat) (updated : List (Nat × Nat))
+
+def parseUpdated (s : String) : Option (List (Nat × Nat)) :=
+  if s == "-" then some [] else
+  (s.splitOn ",").mapM fun item =>
+    match item.splitOn "=" with
+    | [i, pn] => do let i ← i.toNat?; let pn ← pn.toNat?; pure (i, pn)
+    | _ => none
+
+def parseSteps (s : String) : Option (List BStep) :=
+  if s == "-" then some [] else
+  (s.splitOn ";").mapM fun item =>
+    match item.splitOn ":" with
+    | ["P", k, l, pn] => do let k ← key32 k; let l ← l.toNat?; let pn ← pn.toNat?; pure (.push k l pn)
+    | ["C", f, t, u] => do let f ← f.toNat?; let t ← t.toNat?; let u ← parseUpdated u; pure (.chunk f t u)
+    | _ => none
+
+def runSteps (base : Option (List Nat)) : List BStep → Builder → Option Builder
+  | [], b => some b
+  | .push k l pn :: r, b => (builderPush b k l pn).bind (runSteps base r)
+  | .chunk f t u :: r, b =>
+    match base with
+    | none => none                                   -- `expect("push_chunk needs a base")` of the hook
+    | some bp => (builderPushChunk b bp f t u).bind (runSteps base r)
 
 def bitopsLine (line : String) : String :=
   match bitopsFields line with
@@ -67,6 +99,22 @@ def bitopsLine (line : String) : String :=
       | some r => hexOfNats r
       | none => "panic"
     | _, _, _, _, _ => "bad-op"
+  | ["gk", pg, i] =>
+    match natsOfHex pg, i.toNat? with
+    | some pg, some i =>
+      if pg.length ≠ 4096 then "bad-op" else
+      match getKey pg i with
+      | some k => hexOfNats k
+      | none => "panic"
+    | _, _ => "bad-op"
+  | ["bn", init, n, pc, pl, base, steps] =>
+    match natsOfHex init, n.toNat?, pc.toNat?, pl.toNat?, (if base == "-" then some none else (natsOfHex base).map some), parseSteps steps with
+    | some init, some n, some pc, some pl, some base, some steps =>
+      if init.length ≠ 4096 || (base.map (·.length)).getD 4096 ≠ 4096 then "bad-op" else
+      match (builderNew init n pc pl).bind (runSteps base steps) with
+      | some b => hexOfNats b.page
+      | none => "panic"
+    | _, _, _, _, _, _ => "bad-op"
   | _ => "bad-op"
 
 def bitopsStep (s : Unit) (line : String) : Unit × String := (s, bitopsLine line)
